@@ -524,6 +524,47 @@ func runC05(c *engine.Ctx) {
 		})
 	}
 	c.Floor(n, 5)
+
+	// ---- R8 the control-channel cipher is never skipped ----
+	c.Rule("R8", "NewCryptoReadWriter returns, with a nil error, only a stream built from crypto.NewReader and crypto.NewWriter over its argument — never the argument itself (an empty token must still be enciphered: registrations carry http passwords and secret keys)")
+	if f := fn(c, "pkg/util/net.NewCryptoReadWriter"); f != nil {
+		var res0 []ssa.Value
+		engine.ForEachInstr(f, func(in ssa.Instruction) {
+			if r, ok := in.(*ssa.Return); ok && len(r.Results) == 2 {
+				res0 = append(res0, r.Results[0])
+			}
+		})
+		c.AllPaths("pkg/util/net.NewCryptoReadWriter", engine.PathCheck{Fn: f, Sink: engine.IsReturn, Track: res0, Pred: func(st *engine.PathState) string {
+			r := st.Sink.(*ssa.Return)
+			if len(r.Results) != 2 {
+				return "unexpected result shape"
+			}
+			if !engine.IsNilConst(st.Resolve(r.Results[1])) {
+				return "" // error exit
+			}
+			v := st.Resolve(r.Results[0])
+			src := engine.Provenance(v, engine.ProvOpts{})
+			rd, wr := false, false
+			for k := range src.Calls {
+				if k.Pkg() != nil && strings.HasSuffix(k.Pkg().Path(), "golib/crypto") {
+					if k.Name() == "NewReader" {
+						rd = true
+					}
+					if k.Name() == "NewWriter" {
+						wr = true
+					}
+				}
+			}
+			if !(rd && wr) {
+				return "NewCryptoReadWriter returns a stream that is not built from crypto.NewReader and crypto.NewWriter (the control channel would run in clear)"
+			}
+			return ""
+		}}, "every successful return is the enciphered stream")
+		c.Floor(1, 1)
+	}
+
+	// ---- R9 pooled codec recycling (shared with C01.R8): a codec recycled in use re-points another proxy's plaintext at this connection ----
+	checkRecycle(c, "R9")
 }
 
 // checkSecretFlows implements R6 with a forward taint from loads of secret fields.
